@@ -149,7 +149,7 @@ example : (1, 7) ∈ (run (TW.init 10) (List.replicate 6 .tick ++ .set 1 7 8 :: 
 example : ∀ op ∈ List.replicate 8 Op.tick, Spec.touches 1 op = false := by decide
 
 /-- `move_fires_exactly_at_due`'s pending hypothesis is satisfiable. -/
-example : (⟨1, 7, 8⟩ : Spec.Timer) ∈ (List.replicate 6 Op.tick ++ [.set 1 7 8]).foldl (fun t op => (Spec.step t op).1) [] := by
+example : (⟨1, 7, 8⟩ : Spec.Timer) ∈ (List.replicate 6 Op.tick ++ [Op.set 1 7 8]).foldl (fun t op => (Spec.step t op).1) [] := by
   decide
 
 end GoZero.C12
